@@ -173,6 +173,23 @@ def _special_crystals():
     return out
 
 
+def _interstitial_crystals():
+    """host + interstitial sublattice on lattices whose matrix is NOT symmetric (hexagonal, monoclinic, oblique 2-D)"""
+    from onsager import crystal
+    out = []
+    hcp = crystal.Crystal.HCP(1.0, chemistry='Ti')
+    out.append(('hcp-octa', hcp.addbasis(hcp.Wyckoffpos(np.array([0., 0., 0.5])), chemistry=['O']), 1, 0.95))
+    out.append(('hcp-octa-tet', hcp.addbasis(hcp.Wyckoffpos(np.array([0., 0., 0.5])) + hcp.Wyckoffpos(np.array([1 / 3, 2 / 3, 0.625])),
+                                             chemistry=['O']), 1, 0.7))
+    mono = crystal.Crystal(np.array([[1, 0, .3], [0, 1.1, 0], [0, 0, .9]]), [[np.zeros(3)], [np.array([.5, .25, .5]), np.array([.5, .75, .5])]],
+                           chemistry=['M', 'X'])
+    out.append(('mono-int', mono, 1, 0.8))
+    obl = crystal.Crystal(np.array([[1, .35], [0, .8]]), [[np.zeros(2)], [np.array([.5, .5]), np.array([.25, .1]), np.array([.75, .9])]],
+                          chemistry=['M', 'X'])
+    out.append(('oblique2-int', obl, 1, 0.75))
+    return out
+
+
 def _calculators(ctx):
     """yield (label, kind, calculator or exception, tags-if-any)"""
     from onsager import OnsagerCalc
@@ -186,6 +203,8 @@ def _calculators(ctx):
     if not ctx.quick:
         for name in ('sq', 'fcc', 'hon', 'b2'):
             yield ('V2:' + name, 'vacancy', cm.make_vm(name, Nthermo=2))
+    for label, crys, chem, cut in _interstitial_crystals():
+        yield ('I:' + label, 'interstitial', OnsagerCalc.Interstitial(crys, chem, crys.sitelist(chem), crys.jumpnetwork(chem, cut)))
     for label, crys, chem, cut in _special_crystals():
         sl = crys.sitelist(chem)
         jn = crys.jumpnetwork(chem, cut) if cut > 0 else []
@@ -229,6 +248,93 @@ def _oracle_tags(ctx, label, d):
     if set(d.tagdict) != set(seen):
         ctx.violation('tagdict-extra', 'tagdict has keys that are no generated tag', dict(calculator=label))
     return seen
+
+
+_POS = None
+
+
+def _parse_tag(tag):
+    """the positions a tag names, in order of appearance: [(letter, unit-cell coordinates)]"""
+    global _POS
+    import re
+    if _POS is None:
+        _POS = re.compile(r'([a-z]):([+-]\d+\.\d{3}(?:,[+-]\d+\.\d{3})*)')
+    return [(m.group(1), np.array([float(x) for x in m.group(2).split(',')])) for m in _POS.finditer(tag)]
+
+
+def _named_geometry(d, kind):
+    """What every tag has to name, derived from the calculator's geometry (site list, jump networks, star sets) and NOT
+    from generatetags: yields (type, class index, member index, [(letter, exact unit-cell position)],
+    [(index of start position, index of end position, Cartesian vector between them)])."""
+    crys, basis = d.crys, d.crys.basis[d.chem]
+    inv = crys.invlatt
+    if kind == 'interstitial':
+        for k, sites in enumerate(d.sitelist):
+            for m, s in enumerate(sites): yield 'states', k, m, [('i', basis[s])], []
+        for k, jl in enumerate(d.jumpnetwork):
+            for m, ((i, j), dx) in enumerate(jl):
+                yield 'transitions', k, m, [('i', basis[i]), ('i', basis[i] + np.dot(inv, dx))], [(0, 1, dx)]
+        return
+    for letter, ty in (('v', 'vacancy'), ('s', 'solute')):
+        for k, sites in enumerate(d.sitelist):
+            for m, s in enumerate(sites): yield ty, k, m, [(letter, basis[s])], []
+    for k, star in enumerate(d.thermo.stars):
+        for m, si in enumerate(star):
+            PS = d.thermo.states[si]
+            yield 'solute-vacancy', k, m, [('s', basis[PS.i]), ('v', basis[PS.j] + PS.R)], [(0, 1, PS.dx)]
+    for k, jl in enumerate(d.om0_jn):
+        for m, ((i, j), dx) in enumerate(jl):
+            yield 'omega0', k, m, [('v', basis[i]), ('v', basis[i] + np.dot(inv, dx))], [(0, 1, dx)]
+    for k, jl in enumerate(d.om1_jn):
+        for m, ((i, j), dx) in enumerate(jl):
+            P1, P2 = d.kinetic.states[i], d.kinetic.states[j]
+            yield 'omega1', k, m, [('s', basis[P1.i]), ('v', basis[P1.j] + P1.R), ('v', basis[P2.j] + P2.R)], \
+                [(0, 1, P1.dx), (0, 2, P2.dx), (1, 2, dx)]
+    for k, jl in enumerate(d.om2_jn):
+        for m, ((i, j), dx) in enumerate(jl):
+            P1, P2 = d.kinetic.states[i], d.kinetic.states[j]
+            yield 'omega2', k, m, [('s', basis[P1.i]), ('v', basis[P1.j] + P1.R), ('s', basis[P2.i]), ('v', basis[P2.j] + P2.R)], \
+                [(0, 1, P1.dx), (2, 3, P2.dx)]
+
+
+def _oracle_tag_geometry(ctx, label, kind, d):
+    """read the tag TEXT: every position a tag names is the site / end point of the state or transition it indexes
+    (to the printed precision), is a site of the crystal, and the Cartesian vectors between named positions are the jump /
+    pair vectors of that class member."""
+    crys, basis = d.crys, d.crys.basis[d.chem]
+    latt = crys.lattice
+    tolu = 0.0005 + 1e-9
+    tolx = 0.001 * float(np.max(np.sum(np.abs(latt), axis=1))) + 1e-9
+    nbad = 0
+    for ty, k, m, want, vecs in _named_geometry(d, kind):
+        ctx.count('tag-geometry-checked')
+        try:
+            tag = d.tags[ty][k][m]
+        except (KeyError, IndexError):
+            ctx.violation('tag-missing:' + ty, 'no tag for member %d of class %d' % (m, k), dict(calculator=label, type=ty)); continue
+        got = _parse_tag(tag)
+        rep = dict(calculator=label, type=ty, index=k, member=m, tag=tag,
+                   expected=[[l, [round(float(x), 6) for x in u]] for l, u in want],
+                   lattice=latt.tolist(), basis=[u.tolist() for u in basis])
+        bad = None
+        if ty.startswith('omega') and not tag.startswith(ty + ':'): bad = 'prefix'
+        elif len(got) != len(want) or any(g[0] != w[0] or len(g[1]) != len(w[1]) for g, w in zip(got, want)): bad = 'structure'
+        elif any(np.max(np.abs(g[1] - w[1])) > tolu for g, w in zip(got, want)): bad = 'position'
+        else:
+            for g in got:        # a site of the crystal, up to a lattice translation
+                if not any(np.max(np.abs((g[1] - u) - np.round(g[1] - u))) <= tolu for u in basis): bad = 'not-a-site'
+            for a, b, dx in vecs:
+                if np.max(np.abs(np.dot(latt, got[b][1] - got[a][1]) - dx)) > tolx: bad = bad or 'vector'
+        if bad:
+            nbad += 1
+            if nbad <= 3:
+                ctx.violation('tag-names-wrong-%s:%s' % (bad, ty),
+                              'tag %s does not name the %s member it indexes (%s)' % (tag, ty, bad), rep)
+    # tags of one class are pairwise distinct, and the classes of one type are as many as the geometry has
+    for ty, classes in d.tags.items():
+        for k, cls in enumerate(classes):
+            if len(set(cls)) != len(cls):
+                ctx.violation('tag-repeated-in-class:' + ty, 'a class lists the same tag twice', dict(calculator=label, type=ty, index=k))
 
 
 def _oracle_t2p(ctx, label, d, user, result, seen, limb_out):
@@ -395,6 +501,7 @@ def _run(ctx, nuser):
             continue
         ctx.count('calculator:' + kind)
         seen = _oracle_tags(ctx, label, d)
+        _oracle_tag_geometry(ctx, label, kind, d)
         seen_of[label] = seen
         all_tags += list(seen)[:50]
         ntags = len(seen)
